@@ -5,7 +5,7 @@
    vm_compute, each replayed on the implementation by the harness) together
    with the restricted positive theorems [_partial]. *)
 From Coq Require Import ZArith List Bool.
-From Mpc Require Import Lang.Fold Lang.FoldProof Lang.FoldClassProof.
+From Mpc Require Import Lang.Fold Lang.FoldProof Lang.FoldClassProof Lang.FoldNestProof.
 Import ListNotations.
 From Mpc Require Gen.State Base.StateExpected Base.StateCheck Base.StatePkgs.
 Open Scope Z_scope.
@@ -215,6 +215,62 @@ Theorem C12_calls_fold_independently : forall calls tbl names t n ps,
   res_map (fun c => do v <- eval (cex c); consumer_prep (item_of_call c) v) calls = Ok ps.
 Proof. exact calls_fold_independently. Qed.
 Print Assumptions C12_calls_fold_independently.
+
+(* ---- NESTED folds across a cast ----
+   The operands of the theorems above are typed literals.  An operand that is the RESULT
+   of an earlier fold at another width, brought to the operator's type by a cast, keeps its
+   mpa.Int (C12_casts_share_the_mint): a 64-bit fold result with bit 63 set is a small Int
+   with a NEGATIVE value, a narrower result sits in its 32/64-bit container, ...
+   [held]: the invariant of an mpa.Int as Generator.Constant leaves it.  It is established
+   for EVERY small Int (any int64 value, negative included) and every non-negative big Int —
+   all literals, all small-path results, all results of the big-path adder, subtractor and
+   multiplier. *)
+Theorem C12_constant_leaves_held : forall v t, (isSmall v = true \/ 0 <= mval v) ->
+  held (mint_of (constant v t)).
+Proof. exact constant_held. Qed.
+Print Assumptions C12_constant_leaves_held.
+
+(* What the program sees of a held constant of a type at least as wide as its container
+   (every widening cast) is exactly the container's bits — what mpa.Int.bin feeds into the
+   big-path circuits. *)
+Theorem C12_held_wires : forall k n mn m, held m -> 0 < mbits m <= n ->
+  const_wires (CI (mkT k n mn) m) = inval m.
+Proof. exact held_wires. Qed.
+Print Assumptions C12_held_wires.
+
+(* * + - folded at ANY declared width n > 64 on ANY two held operands of that type (results of
+   earlier folds at any width, any casts, containers up to n; all values, negative small
+   ones included): the folder answers and the folded constant is the circuit's result on
+   exactly the wires the program sees of the two operands (+ and - unless both containers
+   are more than one bit shorter than n: the F6f panic). *)
+Theorem C12_nested_wide_arith : forall op k n ml mr x y,
+  wide_arith op = true -> 64 < n -> held x -> held y ->
+  0 < mbits x <= n -> 0 < mbits y <= n ->
+  (match op with OAdd | OSub => n - 1 <= Z.max (mbits x) (mbits y) | _ => True end) ->
+  exists c, evalConst op (CI (mkT k n ml) x) (CI (mkT k n mr) y) = Ok c /\
+    good c k n (snd (circuit_sem op k n (const_wires (CI (mkT k n ml) x)) (const_wires (CI (mkT k n mr) y)))).
+Proof. exact nested_wide_arith. Qed.
+Print Assumptions C12_nested_wide_arith.
+
+(* The same statement is FALSE for the other big-path operators, which read big() — a
+   negative number for a folded 64-bit constant with bit 63 set (finding F6m):
+   uint128(-uint64(5)) << 64 folds to 3 * 2^64, the circuit computes (2^64 - 5) * 2^64;
+   & ^ &^ with uint128(2^100 + 1) differ as well. *)
+Theorem C12_nested_wide_shift_refuted :
+  run_program KUint 128 f6m_const = Ok (3 * 2 ^ 64) /\
+  run_program KUint 128 f6m_runtime = Ok ((2 ^ 64 - 5) * 2 ^ 64).
+Proof. exact nested_wide_shift_refuted. Qed.
+Print Assumptions C12_nested_wide_shift_refuted.
+
+Theorem C12_nested_wide_bitops_refuted :
+  forallb (fun op =>
+    match run_program KUint 128 (EBin op (ECast KUint 128 (ENeg (ECast KUint 64 (ELit 5)))) (ECast KUint 128 (ELit (2 ^ 100 + 1)))),
+          run_program KUint 128 (EBin op (ECast KUint 128 (ENeg (EIn KUint 64 5))) (EIn KUint 128 (2 ^ 100 + 1))) with
+    | Ok a, Ok b => negb (a =? b)
+    | _, _ => false
+    end) [OBand; OBxor; OBclr] = true.
+Proof. exact nested_wide_bitops_refuted. Qed.
+Print Assumptions C12_nested_wide_bitops_refuted.
 
 (* SCOPE NOTE (binding forms).  The theorems above are about the folder GIVEN its operand
    constants (literals, casts T(a), -T(a), x := E, helper parameters).  The other ways a
